@@ -1031,7 +1031,7 @@ def judge(before, after, conds=(), defs=None, deps=None, rng=None, budget=400000
         try:
             vb, eb, sb = _side_value(before, env, defs, tally, diffvar, deps, per_eval)
         except NotEvaluable as e:
-            if not _structural(e.reason) and not closed and redraws < 8:
+            if not _structural(e.reason) and not closed and redraws < 6 * ndraw:
                 redraws += 1
                 i -= 1
                 continue
